@@ -31,6 +31,60 @@ type OpResult struct {
 	Rows []int     `json:"rows,omitempty"` // scan: the u values returned
 }
 
+// Calibrate measures, on the real code, how many HEAD reads each operation of
+// the scenario performs before its decisive one (JOp.Pre): each distinct kind of
+// operation is run alone on a fresh lake and its granted steps are inspected.
+func (r *Runner) Calibrate(sc *lakeh.JScenario) error {
+	type key struct{ k, arg string }
+	seen := map[key]int{}
+	saveRand := r.Rand
+	defer func() { r.Rand = saveRand }()
+	for i := range sc.Script {
+		for k := range sc.Script[i] {
+			op := &sc.Script[i][k]
+			if op.K == "load" || op.K == "scan" || op.K == "read" {
+				continue
+			}
+			kk := key{op.K, op.Arg}
+			if n, ok := seen[kk]; ok {
+				op.Pre = n
+				continue
+			}
+			mini := *sc
+			mini.Name = sc.Name + "_cal"
+			probe := *op
+			switch op.K {
+			case "insert":
+				probe.Key = "calprobe" // a name that does not exist yet
+			case "rename":
+				probe.New = "calprobe"
+			}
+			mini.Script = [][]lakeh.JOp{{probe}}
+			r.Rand = rand.New(rand.NewSource(1))
+			results, _, _, err := r.Execute(&mini, nil, nil)
+			if err != nil {
+				return fmt.Errorf("calibration of %s %s: %w", op.K, op.Arg, err)
+			}
+			if len(results) != 1 || results[0].Res != "ok" {
+				return fmt.Errorf("calibration of %s %s: the operation did not succeed alone: %+v", op.K, op.Arg, results)
+			}
+			n := 0
+			for _, st := range r.LastTrace {
+				if st.Lbl != "rh" {
+					break
+				}
+				n++
+			}
+			if n == 0 {
+				return fmt.Errorf("calibration of %s %s: no HEAD read observed: %v", op.K, op.Arg, r.LastTrace)
+			}
+			seen[kk] = n - 1
+			op.Pre = n - 1
+		}
+	}
+	return nil
+}
+
 // Crashed reports whether the operation was cut short by the client's fail-stop.
 func (o OpResult) Crashed() bool { return strings.Contains(o.Err, "process crashed") }
 
@@ -141,6 +195,14 @@ func (r *Runner) Execute(sc *lakeh.JScenario, sched []lakeh.GateStep, want *lake
 			for k, op := range sc.Script[i-1] {
 				res := OpResult{C: i, I: k + 1, Op: op, UID: 100*i + k + 1}
 				gate.OpBoundary(i)
+				// the scheduler decides when the operation begins (real-time order of operations)
+				if err := gate.Point(i, "begin"); err != nil {
+					res.Res, res.Err = "err", err.Error()
+					mu.Lock()
+					results = append(results, res)
+					mu.Unlock()
+					continue
+				}
 				res.T0 = atomic.AddInt64(&clock, 1)
 				var e error
 				switch op.K {
@@ -225,6 +287,15 @@ func (r *Runner) Execute(sc *lakeh.JScenario, sched []lakeh.GateStep, want *lake
 			continue
 		}
 		lbl, rn, _ := gate.Pending(st.C)
+		if gate.State(st.C) == "blocked" && lbl == "begin" {
+			// the operation starts now, i.e. after everything scheduled before this step
+			if err := gate.Grant(st.C); err != nil {
+				gate.Drain()
+				wg.Wait()
+				return results, nil, "", err
+			}
+			lbl, rn, _ = gate.Pending(st.C)
+		}
 		if gate.State(st.C) != "blocked" || lbl != st.Lbl {
 			drift = fmt.Sprintf("step %d: spec expects client %d to do %s, real client is %s with pending %q", si+1, st.C, st.Lbl, gate.State(st.C), lbl)
 			break
@@ -261,6 +332,9 @@ func (r *Runner) Execute(sc *lakeh.JScenario, sched []lakeh.GateStep, want *lake
 	wg.Wait()
 	r.LastTrace = nil
 	for _, st := range gate.Trace {
+		if st.Lbl == "begin" {
+			continue
+		}
 		if st.Lbl == "rh" || st.Lbl == "cas" || st.Lbl == "wh" {
 			if st.Lbl == "wh" {
 				// the gate does not know the value being written; Journal.tla's wh carries at+1 = the entry just created
